@@ -12,7 +12,9 @@
 //	   fragment body changed): every answer must equal the one graphql.Do gives from scratch;
 //	E. (stateful.go) introspection is read-only (schema dump before/after everything; data → introspection → data on a
 //	   schema with overlapping IsTypeOf and no ResolveType), and a request whose resolver issues another request on the
-//	   same plan / cache / schema with other variables answers as it does alone.
+//	   same plan / cache / schema with other variables answers as it does alone;
+//	F. (sentinel.go) shared long-lived error values of every kind the library treats specially, returned by several fields
+//	   at different paths across requests: the probe's bytes do not depend on what failed before, the values are unchanged.
 //
 // Observables: json.Marshal of the *graphql.Result (bytes), json.Marshal of ValidateDocument(...).Errors (bytes), the
 // first result of a subscription. All must be byte-identical across A, B and C. There is no Lean driver: the
@@ -526,16 +528,18 @@ func main() {
 			IntrospectionRequest string `json:"introspection_request"`
 			OuterEntry           string `json:"outer_entry_point"`
 			DumpBefore           string `json:"dump_before"`
+			SentinelKind         string `json:"sentinel_kind"`
 		}
 		if err := hx.LoadReplay(run.ReplayIn, &rp); err != nil {
 			run.CheckError("cannot load replay: " + err.Error())
 			run.Finish()
 			return
 		}
-		if rp.IntrospectionRequest != "" || rp.OuterEntry != "" || rp.DumpBefore != "" {
+		if rp.IntrospectionRequest != "" || rp.OuterEntry != "" || rp.DumpBefore != "" || rp.SentinelKind != "" {
 			// replay of a phase-E finding: the targeted sequences are cheap and deterministic, run them all again
 			n := phaseReadOnly(run, specs, newEnv(specs), map[builtKey]string{})
 			n += phaseNested(run)
+			n += phaseSentinels(run)
 			run.Res.Evaluations = n
 			run.Finish()
 			return
@@ -712,6 +716,7 @@ func main() {
 	if *only == "" {
 		eExec += phaseReadOnly(run, specs, shared, shared.dumps)
 		eExec += phaseNested(run)
+		eExec += phaseSentinels(run)
 	}
 
 	// ---- C. compare what the fresh processes (started before phase A) observed
@@ -756,7 +761,7 @@ func main() {
 		key := fmt.Sprintf("%s|%s|%x|%s", specs[c.Schema].Name, c.Mode, h[:8], c.Op)
 		run.Case(key, len(o.Do) > 2 && class != "fault", map[string]interface{}{"id": c.ID, "query": c.Query[:min(len(c.Query), 300)], "result_class": class, "do": o.Do[:min(len(o.Do), 300)]})
 	}
-	run.Res.Rule = fmt.Sprintf("a case is one (schema, resolver-world mode, request); it counts as non-trivial when the request completed with data or errors; every case was executed %d× on one shared schema value interleaved with all others (in turn graphql.Do, PlanCache.Get+ExecutePlan, and re-execution of one prepared plan), %d× on freshly built schemas in the same process and once in each of %d fresh processes; both json.Marshal(result) and json.Marshal(ValidateDocument(...).Errors) must be byte-identical throughout; distinctness by (schema, mode, query, operation); phase D: a sequence = a probe request answered through one shared PlanCache after 1-6 near-miss requests (exactly one default value / literal / directive / alias / argument order / operation name / fragment body changed), every probe answer byte-identical to graphql.Do's; phase E: schema dump unchanged by all requests, data request unchanged by an interposed introspection request, outer request unchanged by a nested request issued from its own resolver", reps, freshReps, procs)
+	run.Res.Rule = fmt.Sprintf("a case is one (schema, resolver-world mode, request); it counts as non-trivial when the request completed with data or errors; every case was executed %d× on one shared schema value interleaved with all others (in turn graphql.Do, PlanCache.Get+ExecutePlan, and re-execution of one prepared plan), %d× on freshly built schemas in the same process and once in each of %d fresh processes; both json.Marshal(result) and json.Marshal(ValidateDocument(...).Errors) must be byte-identical throughout; distinctness by (schema, mode, query, operation); phase D: a sequence = a probe request answered through one shared PlanCache after 1-6 near-miss requests (exactly one default value / literal / directive / alias / argument order / operation name / fragment body changed), every probe answer byte-identical to graphql.Do's; phase E: schema dump unchanged by all requests, data request unchanged by an interposed introspection request, outer request unchanged by a nested request issued from its own resolver; phase F: a request failing with a shared sentinel error answers the same after other requests failed with that sentinel elsewhere, and the sentinel values are unchanged", reps, freshReps, procs)
 	run.Res.Evaluations = len(cases)*(reps+freshReps+procs) + ist.executions + eExec // every execution of the real code is compared
 	run.Res.Extra["interleave_sequences"] = ist.probes
 	run.Res.Extra["interleave_executions"] = ist.executions
